@@ -10,7 +10,7 @@ RULE = ("for every generated valid program, every single structural mutation in 
         "context); oracle: the parse does not return a tree. non-trivial = the mutated construct is nested >= 1 deep or named")
 ASSUMPTIONS = ["mutations that leave a valid program are excluded by construction: removing a PROGRAM statement; openers of program "
                "units; non-block DO (no END of its own); a label-DO closed by a labelled CONTINUE (the CONTINUE is a statement of its "
-               "own); a surplus END line of a program unit that the enclosing units absorb (the copy closes the enclosing unit, whose END closes the next, ...) and whose left-over is a bare END / END PROGRAM line (an empty main program without PROGRAM statement)"]
+               "own); the END of a program unit in front of a main program without PROGRAM statement (that main program's END terminates the unit instead); a surplus END line of a program unit that the enclosing units absorb (the copy closes the enclosing unit, whose END closes the next, ...) and whose left-over is a bare END / END PROGRAM line (an empty main program without PROGRAM statement)"]
 TIE_MODULES = ["FparserModel.Block", "FparserModel.Splitline", "FparserModel.Generated.Blocks2008"]
 
 UNITS = {"program", "module", "submodule", "subroutine", "function", "blockdata"}
@@ -69,6 +69,18 @@ def mutations(p, rng, max_paren=12):
     lines = [("  " * d) + s.text() for s, d in flat]
     blocks = p.blocks()
     parent_of = {id(b): parent for b, depth, parent in blocks}
+    # a main program without PROGRAM statement has no opener of its own: when the END of an
+    # earlier program unit (or of a subprogram inside it) is removed, the END of that main
+    # program terminates the unit instead, every unit is again opened, terminated and nested
+    # (what remains wrong is the ORDER of statements inside the unit, which fparser does not
+    # enforce by design and which is not what C08 is about)
+    top = [b for b, depth, parent in blocks if depth == 0]
+    headless_at = [i for i, b in enumerate(top) if b.cons == "program" and b.open is None]
+
+    def top_index(b):
+        while parent_of.get(id(b)) is not None:
+            b = parent_of[id(b)]
+        return next(i for i, t in enumerate(top) if t is b)
     for b, depth, parent in blocks:
         if b.cons == "nonblockdo":
             continue
@@ -85,8 +97,10 @@ def mutations(p, rng, max_paren=12):
         surplus_is_unit = b.cons in UNITS and surplus_end_absorbed(b, parent_of)
         if b.cons not in UNITS and oi is not None and not closer_is_stmt:
             yield ("del-opener", b.cons, nt, lines[:oi] + lines[oi + 1:])
-        if ci is not None:
+        rebalanced = b.cons in UNITS and any(h > top_index(b) for h in headless_at)
+        if ci is not None and not rebalanced:
             yield ("del-end", b.cons, nt, lines[:ci] + lines[ci + 1:])
+        if ci is not None:
             if not closer_is_stmt and not surplus_is_unit:
                 yield ("dup-end", b.cons, nt, lines[:ci + 1] + [lines[ci]] + lines[ci + 1:])
             ct = b.close.toks
